@@ -369,6 +369,10 @@ class Extractor:
         if fo.get("external_body"):
             self.out.emit("    #[verifier::external_body]")
             self.hit("R5.external_body")
+        if fo.get("attr"):
+            # I4: verifier-only attribute (e.g. a larger resource limit for one function)
+            self.out.emit("    #[%s]" % fo["attr"])
+            self.hit("I4.attr")
         new_sig = sig_txt.split("\n")
         # keep the line map: if the number of lines changed, map all to the first sig line
         if len(new_sig) == len(sig_lines):
